@@ -319,6 +319,23 @@ func TestVerifC05(t *testing.T) {
 		if sc.Net.Loss > 0.2 {
 			sc.Net.Loss = 0.2
 		}
+		// the injector fires every 1..40 virtual ms for as long as the scenario
+		// lasts: outages of half an hour add millions of injections (minutes of
+		// real time under the race detector) and nothing else
+		healAt := 0
+		for i := range sc.Net.Outages {
+			o := &sc.Net.Outages[i]
+			if o[0] > 120000 {
+				o[0] = 120000 + i*1000
+			}
+			if o[1] > o[0]+30000 {
+				o[1] = o[0] + 30000
+			}
+			healAt = max(healAt, o[1]+100)
+		}
+		if len(sc.Net.Outages) > 0 {
+			sc.Net.HealAt = max(min(sc.Net.HealAt, 200000), healAt)
+		}
 		sc.LimitMs = int64(sc.Net.HealAt) + 30*60*1000
 		rec.beginCase(sc)
 		synctest.Test(t, func(t *testing.T) { runC05Session(t, rec, &sc, rng, valid) })
